@@ -111,6 +111,23 @@ def generate(rng, index, tier):
     # tid a peer announces).  Their own rendering reads shared tables by design and is excluded from the text comparison;
     # what they must not do is change any OTHER trace.
     changed = False
+    if rng.chance(0.12):
+        # lookups that cross their call: on one thread a call returns inside its own lookup (START, first chunk, END, the rest);
+        # on another the lookup begins before the call's START
+        ids_ = worlds.catalog()['ids']
+        for kind_ in rng.sample(['end-inside', 'start-inside'], rng.randint(1, 2)):
+            th_ = rng.pick(threads)
+            nm_ = rng.pick(['BSC_open', 'BSC_stat64', 'BSC_access', 'BSC_lstat64'])
+            s_, e_ = worlds.domains.draw(rng, nm_)
+            lk_ = worlds.op_lookup(rng, rng.pick([30, 60, 100]))
+            at_ = rng.randrange(len(th_['ops']) + 1)
+            if kind_ == 'end-inside':
+                lk_['between'] = {'0': [{'k': 'raw', 'id': ids_[nm_], 'q': 2, 'a': list(e_)}]}
+                th_['ops'].insert(at_, {'k': 'sys', 'name': nm_, 's': s_, 'e': e_, 'in': [lk_], 'noend': True})
+            else:
+                lk_['between'] = {'0': [{'k': 'sys', 'name': nm_, 's': s_, 'e': e_, 'in': [], 'noend': True}]}
+                th_['ops'][at_:at_] = [lk_, {'k': 'raw', 'id': ids_[nm_], 'q': 2, 'a': list(e_)}]
+        changed = True
     if len(threads) >= 2 and rng.chance(0.15):
         # two threads announce the same global string (same id, same text): whichever comes first, the table holds the same
         gs = [(ti, op) for ti, th in enumerate(threads) for op in th['ops'] if op.get('k') == 'gstr']
@@ -247,6 +264,26 @@ def _core_names():
     return _core
 
 
+def _deep(t, origin, depth=0):
+    """Every field of a trace as plain data, with the records it holds named by where they came from (not by their timestamps,
+    which a merge changes): what the object IS, beyond the text it renders to."""
+    import dataclasses
+    import enum
+    if id(t) in origin:
+        return 'rec:' + origin[id(t)]
+    if dataclasses.is_dataclass(t) and depth < 4:
+        return [type(t).__name__] + [[f.name, _deep(getattr(t, f.name, None), origin, depth + 1)] for f in dataclasses.fields(t)]
+    if isinstance(t, (list, tuple)) and not hasattr(t, '_fields'):
+        return [_deep(x, origin, depth + 1) for x in t]
+    if hasattr(t, '_fields'):        # a record (namedtuple) that is not one of the stream's own: by its fields except the timestamp
+        return ['nt'] + [repr(getattr(t, f)) for f in t._fields if f != 'timestamp']
+    if isinstance(t, enum.Enum):
+        return str(t)
+    if isinstance(t, (int, str, bytes, float, bool)) or t is None:
+        return repr(t)
+    return type(t).__name__ + ':' + repr(t)[:80]
+
+
 def _run(table, stream, init_tp=None, final=True):
     """Feed a stream to a fresh parser; returns (per-tid list of [type, origins, text], pids_names, threads_pids)."""
     tp, pn = dict(init_tp or {}), {}
@@ -263,7 +300,7 @@ def _run(table, stream, init_tp=None, final=True):
         first = kt[0] if kt else ev
         # a thread-terminate record reads, by design, tables that other threads write: its text is not compared
         text = str(t) if type(t).__name__ != 'TraceDataThreadTerminate' else ''
-        entry = [type(t).__name__, [origin.get(id(e), '?') for e in kt], text]
+        entry = [type(t).__name__, [origin.get(id(e), '?') for e in kt], text, _deep(t, origin) if type(t).__name__ != 'TraceDataThreadTerminate' else None]
         out.setdefault(first.tid, []).append(entry)
         kept.append((entry, t))
     for entry, t in kept:
